@@ -26,7 +26,7 @@ ASSUMPTIONS = [
     'find_replace is applied to string fields only',
 ]
 BUDGET = {'quick': dict(examples=2400, shards=8, seconds=70),
-          'thorough': dict(examples=60000, shards=16, seconds=1200)}
+          'thorough': dict(examples=200000, shards=16, seconds=1200)}
 
 META = set('.+|()[] ')
 PATTERN_POOL = ['a.*', r'x\d+', 'a|c', '(a|c)', 'a|ab', 'x1|x10', '.+', 'a.b', r'x(\d+)', '[a-c]', 'a.', 'A|a', 'val|id', 'b.*|x1']
